@@ -1,7 +1,9 @@
 From Coq Require Import Extraction ExtrOcamlBasic ExtrOcamlString.
-From GW Require Import Base ObjXml Objects ObjRfc ObjCheck.
+From GW Require Import Base ObjXml Objects ObjRfc ObjCheck ObjCodecs.
 Extraction Language OCaml.
 Extraction "model_c10.ml" check_query check_multiget check_find check_propfind check_get check_put
   check_doc check_vdoc rfc4918_read_multistatus rfc_write run_call e2e_query e2e_multiget e2e_find
   e2e_get e2e_put server_query server_multiget server_propfind_homeset server_propfind_collection
-  xtree_eqb dec_of_Z.
+  xtree_eqb dec_of_Z
+  tables_agree with_tables href_enc_agrees href_dec_agrees etag_enc_agrees etag_dec_agrees
+  time_enc_agrees time_dec_agrees print_hi_of obj_dom coll_dom outcome_dom loc_dom meta_dom pay_rt.
